@@ -13,16 +13,19 @@ PROPS = {
         level='proof',
         vc=CORE_VC + ['cat.Arrow.__init__[scan]', 'monoidal.Diagram.__init__[scan]', 'monoidal.Diagram.then', 'monoidal.Diagram.tensor',
                       'monoidal.Diagram.__getitem__', 'rewriting.interchange', 'rewriting.interchange[far]', 'rewriting.normalize',
-                      'rigid.Cup.__init__', 'rigid.Cap.__init__', 'rigid.cups', 'lemma:canary:then.len'],
+                      'rigid.Cup.__init__', 'rigid.Cap.__init__', 'rigid.cups', 'rigid.caps', 'monoidal.Box.__init__',
+                      'rigid.Box.__init__', 'monoidal.Diagram.__init__[accepts]', 'monoidal.Diagram.swap', 'rigid.Diagram.swap',
+                      'monoidal.Swap.__init__', 'rigid.Swap.__init__', 'lemma:canary:then.len'],
         sym=[], rtc='C01',
         level_text='Proof of the representation invariant wf (boxes/offsets scan from dom to cod, each box finds its '
                    'domain at its offset, the layer view agrees) for the constructor scan (establishes wf or raises, '
                    'including the offset range that python slice clamping would hide), the fast-path constructor, '
                    'Id, then, tensor, slicing/dagger/indexing, adjacent and distant interchange, the diagrams yielded by '
-                   'normalize, the cat.Arrow constructor scan, rigid Cup / Cap constructors and nested cups / caps: the real bodies are re-read '
+                   'normalize, the cat.Arrow constructor scan, the acceptance direction of the Diagram constructor, Box / Swap / '
+                   'Cup / Cap constructors, nested cups / caps and swap(l, r): the real bodies are re-read '
                    'from /repo on every run, verified against functional contracts, and wf(result) is discharged for '
                    'all well-formed inputs of any length and width. Producers not yet under a discharged contract '
-                   '(foliation, flatten, swaps, permutations, transposes, snake removal, rigid functor images of boxes) '
+                   '(foliation, flatten, permutations, transposes, snake removal, rigid functor images of boxes) '
                    'are covered by the bounded stand-in only and not counted as proved.',
         level_note='Trusted: pyvc + solvers; Upgrade contract (class-preserving upgrade is the identity on the modelled '
                    'fields; subclasses verified by the bounded driver); Box.dagger contract (swaps dom/cod, involutive) '
@@ -193,7 +196,7 @@ PROPS = {
         title='Functors are functorial',
         level='proof',
         vc=['monoidal.Functor.__call__', 'monoidal.Diagram.then', 'monoidal.Diagram.tensor', 'monoidal.Id.__init__',
-            'rigid.Functor.__call__[Cup]', 'rigid.Functor.__call__[Cap]', 'rigid.cups', 'rigid.Cup.__init__',
+            'rigid.Functor.__call__[Cup]', 'rigid.Functor.__call__[Cap]', 'rigid.cups', 'rigid.caps', 'rigid.Cup.__init__',
             'rigid.Cap.__init__'],
         sym=[], rtc='C04',
         level_text='Proof (type-level clauses, all functors, all diagrams of any length): the real whiskering loop of '
@@ -256,14 +259,26 @@ PROPS = {
     'C10': dict(
         title='Swaps and permutations realise exactly the requested wire permutation',
         level='exploration',
-        vc=[], sym=[], rtc='C10',
-        level_text='Bounded stand-in: in each of the five classes, swap(l, r) for all types of length <= 2 (thorough 3) over 3 '
-                   'atoms and permutation(perm, dom) for all permutations of length <= 4 (thorough 5): type, adjacent swaps '
-                   'only, wire map tracked independently by labelling wires, count |l|*|r|, representation invariant; '
-                   'non-permutations and length mismatches refused with ValueError.',
-        level_note='No obligation proved; the induction on len(left) and the permutation loop invariant of DESIGN 6/C10 are not '
-                   'discharged in this build.',
-        technique='bounded run-time contracts with an independent wire-tracking oracle'),
+        vc=['monoidal.Diagram.swap', 'rigid.Diagram.swap', 'monoidal.Swap.__init__', 'rigid.Swap.__init__',
+            'monoidal.Diagram.__init__[accepts]'],
+        sym=[], rtc='C10',
+        level_text='The wire map (the clause that gives the property its name) is a bounded stand-in: in each of the five '
+                   'classes, swap(l, r) for all types of length <= 2 (thorough 3) over 3 atoms and permutation(perm, dom) for '
+                   'all permutations of length <= 4 (thorough 5): type, adjacent swaps only, wire map tracked independently by '
+                   'labelling wires, count |l|*|r|, representation invariant; non-permutations and every length mismatch '
+                   'refused with ValueError; Tensor.swap on blocks of unequal widths.  Discharged in addition (VC, types of '
+                   'any length incl. empty, monoidal and rigid classes): the typing clause of swap. The real body of '
+                   'monoidal.Diagram.swap returns a well-formed diagram left @ right -> right @ left made of Swap boxes only: '
+                   'empty left side; one wire (the scanning constructor is called on [Swap(left, right[i])] at offsets 0..n-1, '
+                   'the layers (right[:i], Swap, right[i+1:]) are exhibited in closed form, their chain conditions are '
+                   'discharged pointwise and the acceptance contract of the constructor, proved here, says it computes '
+                   'exactly them); recursion on a shorter left side. Swap constructors establish dom = l @ r, cod = r @ l and '
+                   'refuse exactly the non-single-object types. Types being sequences of names, the typing clause tells '
+                   'wires of different types apart (so the seeded C10_3 is refuted) but not two wires of the same type.',
+        level_note='Category exploration because the wire map and permutation() are not under a discharged contract; the VC part '
+                   'is counted as obligations in the evidence, not as a proof of the property. Assumed at call sites: Upgrade.',
+        technique='bounded run-time contracts with an independent wire-tracking oracle; VCs from the real AST for the typing '
+                  'clause of swap (closed-form layer witness + acceptance contract of the constructor)'),
     'C17': dict(
         title='Export to and import from pyzx graphs preserve the ZX diagram',
         level='exploration',
@@ -287,7 +302,8 @@ PROPS = {
             'biclosed.Functor.__call__[Over]', 'biclosed.Functor.__call__[Under]', 'biclosed.Functor.__call__[FA]',
             'biclosed.Functor.__call__[BA]', 'biclosed.Functor.__call__[FC]', 'biclosed.Functor.__call__[BC]',
             'biclosed.Functor.__call__[FX]', 'biclosed.Functor.__call__[BX]', 'biclosed.Functor.__call__[Curry]',
-            'rigid.cups', 'rigid.Cup.__init__', 'rigid.Cap.__init__'],
+            'rigid.cups', 'rigid.caps', 'rigid.Cup.__init__', 'rigid.Cap.__init__', 'rigid.Diagram.swap',
+            'monoidal.Diagram.swap'],
         sym=[], rtc='C18',
         level_text='Proved (VC, all type lengths and nesting depths): the translation clause, end to end for a single rule. '
                    '(1) The class invariants of the rule boxes: the real constructors of biclosed.FA / BA / FC / BC / FX / BX / '
@@ -308,9 +324,9 @@ PROPS = {
                    'x 3 depth limits; biclosed -> rigid: FA/BA over all pairs and FC/BC/FX/BX over triples of 10 slash types '
                    '(nested, composite sides), Curry for every 1 <= n_wires <= len(dom) on both sides, derivations and CCG trees.',
         level_note='Call-site contracts: rigid cups(l, r) / caps(l, r) return a well-formed diagram l @ r -> Ty() / Ty() -> l @ r '
-                   'when l.r == r or r.r == l and raise AxiomError otherwise (proved: rigid.cups, part of this check); assumed, '
-                   'exercised by the bounded driver only: swap(l, r) returns a well-formed l @ r -> r @ l; Upgrade is the identity on the modelled fields; '
-                   'monoidal.Box.__init__ stores name, dom, cod as given; the functor is a homomorphism on tensors of types '
+                   'when l.r == r or r.r == l and raise AxiomError otherwise; swap(l, r) returns a well-formed l @ r -> r @ l '
+                   '(both proved: rigid.cups / caps, Diagram.swap, part of this check); assumed: Upgrade is the identity on the modelled fields; '
+                   'the functor is a homomorphism on tensors of types '
                    '(the `len(diagram) > 1` branch, as in C04) and sends a sub-diagram to a well-formed diagram F(dom) -> F(cod) '
                    '(induction hypothesis at the recursive call in the Curry branch). Preconditions: for Curry 1 <= n_wires <= '
                    'len(dom) (n_wires = 0 is outside the documented domain) and the image of the curried wires is not the '
@@ -320,17 +336,35 @@ PROPS = {
                   're-derivation for the parser, generator and tree walk'),
     'C19': dict(
         title='Cartesian diagrams compute the function they draw',
-        level='exploration',
-        vc=[], sym=[], rtc='C19',
-        level_text='Bounded stand-in: every cartesian diagram with <= 2 (thorough 3) boxes over 13 boxes of arities 0..2 -> 0..2 '
-                   '(incl. no inputs / no outputs, swap, copy, discard) is called on tuples with falsy and string values and '
-                   'compared with an independent evaluator that feeds the inputs through the boxes in order and splices the '
-                   'outputs in place; Swap(l, r) for l, r <= 3, Copy(n) / Discard(n) for n <= 5 as wire permutations / '
-                   'duplications / deletions and their representation invariant; naturality of swap, copy and discard for ten '
-                   'boxes on all inputs over 3 values; Function.then / tensor / id against the same evaluator; arity errors refused.',
-        level_note='No obligation proved. Contract precondition: wire values are not tuples and a box returns a bare value for one '
-                   'output, a tuple of length cod otherwise; tuple-valued wires (F13) are outside it.',
-        technique='bounded run-time contracts against an independent wire-list evaluator'),
+        level='proof',
+        vc=['cartesian.Function.__call__', 'cartesian.Function.then', 'cartesian.Function.tensor', 'cartesian.Function.id',
+            'monoidal.Functor.__call__[python]'],
+        sym=[], rtc='C19',
+        level_text='Proved (VC, all diagrams of any length and width, boxes of any arity 0..n -> 0..m): the main clause. Wire '
+                   'values are abstract non-tuple values (either truth value), a box function is an arbitrary map from input '
+                   'tuples to tuples of `cod` outputs returned by the library convention (bare value for one output, tuple '
+                   'otherwise). (1) The real bodies of Function.__call__, then, tensor, id (with tuplify / untuplify and the '
+                   'closures they build, executed on a tuple of symbolic length): (f >> g)(*x) carries out_g(out_f(x)), '
+                   '(f @ g)(*x) carries out_f(x[:n]) ++ out_g(x[n:]), id(n)(*x) carries x, each returned by the convention for '
+                   'every combination of arities; wrong numbers of values / mismatched arities are refused with TypeError / '
+                   'AxiomError and nothing else is. (2) The real loop of monoidal.Functor.__call__ run as a PythonFunctor, with '
+                   'the loop invariant "the function built after k layers is S(k, .)", where S is the reference semantics of the '
+                   'property (S(0, x) = x; S(k+1, x) = S(k, x) with the wires at offset_k replaced by box_k applied to them): '
+                   'calling the result on len(dom) values returns S(len(d), x) by the convention, and no composition in the '
+                   'loop can raise.  NOT proved, bounded stand-in only: that the box / offset lists built by Swap(l, r), Copy(n), '
+                   'Discard(n) realise the permutation / duplication / deletion, the cartesian axioms (naturality), boxes '
+                   'returning a 1-tuple for one output, list-valued wires: every cartesian diagram with <= 2 (thorough 3) boxes '
+                   'over 14 boxes of arities 0..2 -> 0..2 is called on tuples with falsy, string, list and dict values and '
+                   'compared with an independent evaluator; Swap(l, r) for l, r <= 3, Copy(n) / Discard(n) for n <= 5; '
+                   'naturality of swap, copy and discard for ten boxes on all inputs over 4 values; arity errors refused.',
+        level_note='Contract precondition: wire values are not tuples and a box returns a bare value for one output, a tuple of '
+                   'length cod otherwise (tuple-valued wires, F13, are outside it). Assumed, read off Diagram.__call__ and '
+                   'exercised by the bounded driver: the PythonFunctor sends a type to PRO(len) and a box to Function(len(dom), '
+                   'len(cod), box.function); Function(dom, cod, f) stores its three fields; the call-site contracts of then / '
+                   'tensor / id are checked against the proved closures on every run.',
+        technique='VCs from the real AST (closures, star-arguments of symbolic length) against a reference semantics as an '
+                  'uninterpreted recursive function, z3 / cvc5 over sequences; bounded run-time contracts against an '
+                  'independent wire-list evaluator for the structural diagrams and axioms'),
     'C20': dict(
         title='The drawing layout is a faithful planar embedding of the diagram',
         level='exploration',
@@ -377,4 +411,4 @@ FIX_COMMITS = ['da35a0f fix: Y gate', 'e208434 fix: Ry', '1d0097a fix: Controlle
 def claimed():
     return sorted(PROPS)
 
-CONTRACT_MODULES = ['core', 'rewriting', 'lemmas', 'eqhash', 'functors', 'grammar']
+CONTRACT_MODULES = ['core', 'rewriting', 'lemmas', 'eqhash', 'functors', 'grammar', 'cartesian', 'structural']
